@@ -1,16 +1,36 @@
 (* C06 - The Verilog reader builds exactly the design the source describes. Property theorems only.
-   Proved, for ALL expressions / ranges / call sequences: the connection clause ("bit k of the expression,
+   Mechanism level (for ALL expressions / ranges / call sequences): the connection clause ("bit k of the expression,
    counted from its least significant end, is joined to bit k of the port") for identifier, bit-select,
    part-select, constants (one-wire cables) and concatenations, for any port width >= expression width;
-   create_or_update_cable / _port growth and re-basing.
-   Not proved: the document-level statement C06_full (module table, forward references, top election,
-   assigns, parameters, attributes) - VRead.elab is not modelled; covered by the oracle of
-   harness/verilog_check.py on the implementation only. Character-level tokenisation is not modelled. *)
-From Coq Require Import List ZArith Bool Permutation.
-From SV Require Import Base.Base Fmt.VBits Fmt.VExpr Fmt.VDoc Fmt.VTop
-  Proofs.VerilogLists Proofs.VerilogSlice Proofs.VerilogGrow Proofs.VerilogPort Proofs.VerilogAssign Proofs.VerilogTop.
+   create_or_update_cable / _port growth and re-basing; assign pin order and top election REFUTED as stated
+   (open findings), with the parts that hold.
+   Document level: the reader VerilogParser.parse_verilog is modelled from the document value to the netlist value
+   (Fmt/VElab.v elab, tied to the real parser on every run by harness/verilog_doc.py).
+     C06_wf       : for ALL documents, whatever elab returns is a well-formed, self-contained netlist value.
+     C06_full_concatenations / _named_maps / _positional_maps / _assigns / _ports / _wires :
+                    per construct, the EXACT effect of the reader on any state satisfying the structural invariant
+                    (every state reached from a document does), under the typing hypotheses of the input class.
+     C06_nets_are_connections : the nets of the value are exactly the labelled connections of the state.
+     C06_full_instance_nets   : a whole port map, read off the netlist value, including stability of everything
+                    connected before under the growth later connections cause (implied cables, ports created or
+                    widened on the referenced definition).
+     C06_full_top : whole documents: the first module that is not a `celldefine module, if nobody instantiates it,
+                    is the top (otherwise: C06_top_clause_refuted, open finding V06-top-election).
+     NOT proved - C06_full stays a Definition: the composition over a whole document, i.e. (i) that [visible] (every
+     connection made so far shows in the value), a hypothesis of C06_full_instance_nets that the theorem re-establishes,
+     holds in every reachable state; (ii) the same frame / stability argument for wire declarations, assigns and
+     instance creation, and for the definitions other than the one being read; (iii) the induction over the modules
+     of a document (forward references, never-declared modules) and the positional maps deferred to the end of the file.
+   Character-level tokenisation and the recursive descent from tokens to the document value are not modelled. *)
+From Coq Require Import String.
+From Coq Require Import List ZArith Bool Permutation Lia.
+From SV Require Import Base.Base Fmt.VBits Fmt.VExpr Fmt.VDoc Fmt.VTop Fmt.VElab Fmt.VSpec Fmt.VSem
+  Proofs.VerilogLists Proofs.VerilogSlice Proofs.VerilogGrow Proofs.VerilogPort Proofs.VerilogAssign Proofs.VerilogTop
+  Proofs.VElabBase Proofs.VElabInv Proofs.VElabWf Proofs.VElabExpr Proofs.VElabConn Proofs.VElabAssign Proofs.VElabPorts Proofs.VElabNets Proofs.VElabTop Proofs.VElabStable.
 Import ListNotations.
+Local Close Scope string_scope.
 Open Scope Z_scope.
+Local Notation "'S' x" := (s2l x%string) (at level 0, x at level 0, only parsing).
 
 (* (c) low-end alignment *)
 Theorem C06_lowend_align : forall (W : Type) (ws : list W) (pins : list nat) (n : nat),
@@ -125,7 +145,299 @@ Proof.
   intros d [<-|[<-|[<-|[]]]] _ H; cbn in H; intuition discriminate.
 Qed.
 
-(* The statement at full strength. elab: document-level model of VerilogParser.parse_verilog (not written);
-   denote: the meaning of a document (the Coq counterpart of harness/verilog_gen.expected). *)
-Definition C06_full (elab : vdoc -> option nv) (well_typed : vdoc -> Prop) (denote : vdoc -> nv -> Prop) : Prop :=
-  forall d n, well_typed d -> elab d = Some n -> exists m, denote d m /\ same_netlist m n.
+(* ================= document level ================= *)
+
+(* (a) every netlist value the reader returns - for ANY document, inside the input class or not - is well-formed and
+   self-contained: every instance names a definition of the value, every endpoint of a net is an existing bit of a
+   port of the module or of the instantiated definition, every net bit lies inside its cable, no endpoint is on two
+   nets, sibling names are unique, nothing has width 0, the top names a definition of the value. *)
+Theorem C06_wf : forall (d : vdoc) (n : nv), elab d = Ok n -> wf_nv n.
+Proof. exact elab_wf. Qed.
+Print Assumptions C06_wf.
+
+(* a document with a forward reference, a never-declared module used by position, a concatenation, an empty
+   connection, an implied net, a constant and an assign:
+     module top(a, b, y); input [3:0] a; input b; output [1:0] y; wire [3:0] w;
+       sub u1(.p(a[1:0]), .q({b, w[2]}), .r());  GND g(w[0], 1'b0);  assign y[0] = n1;  endmodule
+     module sub(input [1:0] p, input [1:0] q, output r); endmodule *)
+Definition ex_doc : vdoc :=
+  [ {| vm_name := S "top"; vm_cell := false; vm_params := []; vm_attrs := [];
+       vm_header := [HPort None None (S "a"); HPort None None (S "b"); HPort None None (S "y")];
+       vm_body := [ IPortDecl DIn None (Some (3, 0)) [S "a"] []; IPortDecl DIn None None [S "b"] [];
+                    IPortDecl DOut None (Some (1, 0)) [S "y"] []; IWire TWire (Some (3, 0)) [S "w"] [];
+                    IInst (S "sub") (S "u1") [] []
+                      (CNamed [(S "p", Some (DAtom (DPart (S "a") 1 0))); (S "q", Some (DCat [DId (S "b"); DBit (S "w") 2])); (S "r", None)]);
+                    IInst (S "GND") (S "g") [] [] (CPos [Some (DAtom (DBit (S "w") 0)); Some (DAtom (DConst false))]);
+                    IAssign (DBit (S "y") 0) (DId (S "n1")) ] |};
+    {| vm_name := S "sub"; vm_cell := false; vm_params := []; vm_attrs := [];
+       vm_header := [HPort (Some DIn) (Some (1, 0)) (S "p"); HPort (Some DIn) (Some (1, 0)) (S "q"); HPort (Some DOut) None (S "r")];
+       vm_body := [] |} ].
+
+Example C06_wf_witness :
+  match elab ex_doc with
+  | Ok n => nv_top n = Some (S "top") /\ map nd_name (nv_defs n) = [S "top"; S "sub"; S "GND"] /\
+            (exists d, nth_error (nv_defs n) 0 = Some d /\
+                       net_of (S "b", 0) d = [EPort (LName (S "b")) 0; EInst (S "u1") (LName (S "q")) 1] /\
+                       net_of (S "w", 0) d = [EInst (S "g") (LPos 0) 0] /\
+                       nd_assigns d = [[(Some (S "y", 0), Some (S "n1", 0))]])
+  | Err _ => False
+  end.
+Proof. vm_compute. split; [reflexivity|]. split; [reflexivity|]. eexists. split; [reflexivity|]. repeat split. Qed.
+
+(* (b) what the reader builds, construct by construct. Each theorem describes EXACTLY what one construct does to a
+   state of the reader that satisfies the structural invariant (every state reached from a document does: run_inv),
+   under the typing hypotheses of the property's input class for that construct, in the vocabulary of Fmt/VSem.v:
+   crange d = what a definition knows of its nets; dexpr_bits = the bits an expression names, least significant
+   first; wire_label / pin_endpoint = the net bit of a wire / the port bit of a pin as the netlist value shows them. *)
+
+(* the bridge to the netlist value: endpoint e is on net bit r of the value exactly when the state holds a connection
+   whose pin is seen as e and whose wire is seen as r *)
+Theorem C06_nets_are_connections : forall s d r e, DInv d ->
+  (In e (net_of r (abs_def s d)) <-> In (Some e, Some r) (lconn s d)).
+Proof. exact net_of_lconn. Qed.
+Print Assumptions C06_nets_are_connections.
+
+(* expressions: identifier, bit-select, part-select, constant, implied net, concatenation. The wires selected, seen
+   through their labels, are the bits the expression names, MOST significant first; the definition only gains the
+   implied one-bit cables. *)
+Theorem C06_full_concatenations : forall d e d' ws, DInv d -> dexpr_typed (crange d) e -> expr_wires e d = Ok (d', ws) ->
+  cables_ext d d' /\ map (wire_label d') ws = map Some (rev (dexpr_bits (crange d) e)).
+Proof. exact expr_wires_spec. Qed.
+Print Assumptions C06_full_concatenations.
+
+(* the module of ex_doc after its header and declarations, as the reader builds it *)
+Definition ex_doc2 : vdoc := [ {| vm_name := S "top"; vm_cell := false; vm_params := []; vm_attrs := [];
+       vm_header := [HPort None None (S "a"); HPort None None (S "b"); HPort None None (S "y")];
+       vm_body := [ IPortDecl DIn None (Some (3, 0)) [S "a"] []; IPortDecl DIn None None [S "b"] [];
+                    IPortDecl DOut None (Some (1, 0)) [S "y"] []; IWire TWire (Some (5, 2)) [S "w"] [];
+                    IInst (S "sub") (S "u1") [] [] (CNamed []) ] |} ].
+Definition ex_state : estate := match run ex_doc2 with Ok s => s | Err _ => set_defs
+         {| st_defs := []; st_tops := None; st_ps := []; st_acount := O; st_curinst := None; st_pending := [] |} [] end.
+
+Lemma ex_state_inv : Inv ex_state.
+Proof.
+  apply (run_inv ex_doc2). unfold ex_state. destruct (run ex_doc2) as [s|e] eqn:E; [reflexivity|].
+  vm_compute in E. discriminate.
+Qed.
+
+Example C06_full_concatenations_witness :
+  let d := get_def 0 ex_state in
+  let e := DCat [DId (S "b"); DPart (S "w") 4 3; DConst true; DBit (S "a") 0; DId (S "n9")] in
+  DInv d /\ dexpr_typed (crange d) e /\
+  dexpr_bits (crange d) e = [(S "n9", 0); (S "a", 0); (S "\<const1>", 0); (S "w", 3); (S "w", 4); (S "b", 0)] /\
+  exists d' ws, expr_wires e d = Ok (d', ws) /\ length (ed_cables d') = (length (ed_cables d) + 2)%nat.
+Proof.
+  split; [apply get_def_dinv; exact ex_state_inv|]. split.
+  - split; [discriminate|]. repeat constructor; try reflexivity; cbn.
+    + exists 2, 4%nat. split; [vm_compute; reflexivity|lia].
+    + exists 0, 4%nat. split; [vm_compute; reflexivity|lia].
+  - split; [vm_compute; reflexivity|]. eexists; eexists; split; vm_compute; reflexivity.
+Qed.
+
+(* a named connection .p(e): bit k of the expression is joined to bit k of port p of the instance; the port is created
+   (never-declared module) or widened on the referenced definition when the expression is wider; the instantiating
+   definition gains the connections and the implied cables; nothing else changes *)
+Theorem C06_full_named_maps : forall cur ii rk pname e s s' inst,
+  Inv s -> cur <> rk -> (cur < length (st_defs s))%nat -> (rk < length (st_defs s))%nat ->
+  nth_error (ed_insts (get_def cur s)) ii = Some inst -> ei_ref inst = RName (ed_name (get_def rk s)) ->
+  dexpr_typed (crange (get_def cur s)) e -> lo0 (get_def rk s) pname ->
+  named_conn cur ii rk (pname, Some e) s = Ok s' ->
+  let d := get_def cur s in let d' := get_def cur s' in let bits := dexpr_bits (crange d) e in
+  exists pk new,
+    cables_ext d (set_conn d' (ed_conn d)) /\ ed_conn d' = ed_conn d ++ new /\
+    port_made pname (length bits) (get_def rk s) (get_def rk s') pk /\
+    (forall k, k <> cur -> k <> rk -> get_def k s' = get_def k s) /\
+    names s' = names s /\
+    map (fun pw => (pin_endpoint s' d' (fst pw), wire_label d' (snd pw))) new =
+      map (fun kr => (Some (EInst (ei_name inst) (LName pname) (Z.of_nat (fst kr))), Some (snd kr))) (rev (number bits)).
+Proof. exact named_conn_spec. Qed.
+Print Assumptions C06_full_named_maps.
+
+Example C06_full_named_maps_witness :
+  let e := DCat [DBit (S "a") 3; DId (S "b")] in
+  (exists inst, nth_error (ed_insts (get_def 0 ex_state)) 0 = Some inst /\ ei_ref inst = RName (ed_name (get_def 1 ex_state))) /\
+  dexpr_typed (crange (get_def 0 ex_state)) e /\ lo0 (get_def 1 ex_state) (S "p") /\
+  exists s', named_conn 0 0 1 (S "p", Some e) ex_state = Ok s' /\
+    lconn s' (get_def 0 s') = lconn ex_state (get_def 0 ex_state) ++
+      [(Some (EInst (S "u1") (LName (S "p")) 1), Some (S "a", 3)); (Some (EInst (S "u1") (LName (S "p")) 0), Some (S "b", 0))].
+Proof.
+  split; [eexists; split; vm_compute; reflexivity|]. split.
+  - split; [discriminate|]. repeat constructor; try reflexivity; cbn. exists 0, 4%nat. split; [vm_compute; reflexivity|lia].
+  - split; [intros pk p H; vm_compute in H; discriminate|]. eexists. split; vm_compute; reflexivity.
+Qed.
+
+(* the whole port map of an instance, read off the netlist value, with stability of what was connected before: the
+   nets of the instantiating module afterwards are its nets before plus, for every connection .p(e), bit k of e
+   joined to bit k of port p of the instance (conn_meaning) - although later connections may create implied cables
+   and create or widen ports of the referenced definition. [visible]: every connection made so far shows in the
+   netlist value (as an endpoint on a labelled net bit, or as a pin of an assign); it holds again afterwards. *)
+Theorem C06_full_instance_nets : forall cur ii rk inst l s s',
+  Inv s -> cur <> rk -> (cur < length (st_defs s))%nat -> (rk < length (st_defs s))%nat ->
+  nth_error (ed_insts (get_def cur s)) ii = Some inst -> ei_ref inst = RName (ed_name (get_def rk s)) ->
+  Forall (conn_typed (crange (get_def cur s))) l -> Forall (fun pc => has_glob (fst pc) = false) l ->
+  all_lo0 (get_def rk s) -> visible s (get_def cur s) ->
+  fold_res (named_conn cur ii rk) l s = Ok s' ->
+  visible s' (get_def cur s') /\
+  forall r e, In e (net_of r (abs_def s' (get_def cur s'))) <->
+              In e (net_of r (abs_def s (get_def cur s))) \/
+              exists pc, In pc l /\ In (e, r) (conn_meaning (ei_name inst) (crange (get_def cur s)) pc).
+Proof. exact instance_nets_visible. Qed.
+Print Assumptions C06_full_instance_nets.
+
+Example C06_full_instance_nets_witness :
+  let l := [(S "p", Some (DCat [DBit (S "a") 3; DId (S "b")])); (S "q", None); (S "p", Some (DAtom (DId (S "n7"))))] in
+  Forall (conn_typed (crange (get_def 0 ex_state))) l /\ all_lo0 (get_def 1 ex_state) /\
+  visible ex_state (get_def 0 ex_state) /\
+  (* the second connection to p finds its pins taken: the reader refuses (AssertionError) *)
+  fold_res (named_conn 0 0 1) l ex_state = Err EAssert /\
+  exists s', fold_res (named_conn 0 0 1) (firstn 2 l) ex_state = Ok s' /\
+    net_of (S "b", 0) (abs_def s' (get_def 0 s')) = [EPort (LName (S "b")) 0; EInst (S "u1") (LName (S "p")) 0].
+Proof.
+  split.
+  - constructor.
+    + cbn. split; [discriminate|]. constructor; [split; [reflexivity|]; cbn; exists 0, 4%nat; split; [vm_compute; reflexivity|lia]|].
+      constructor; [split; [reflexivity|exact Logic.I]|constructor].
+    + constructor; [exact Logic.I|]. constructor; [cbn; split; [reflexivity|exact Logic.I]|constructor].
+  - split; [intros p Hp; vm_compute in Hp; contradiction|]. split.
+    + apply (resolved_visible _ _
+        [(EPort (LName (S "a")) 0, (S "a", 0)); (EPort (LName (S "b")) 0, (S "b", 0)); (EPort (LName (S "y")) 0, (S "y", 0));
+         (EPort (LName (S "a")) 1, (S "a", 1)); (EPort (LName (S "a")) 2, (S "a", 2)); (EPort (LName (S "a")) 3, (S "a", 3));
+         (EPort (LName (S "y")) 1, (S "y", 1))]). vm_compute. reflexivity.
+    + split; [vm_compute; reflexivity|]. eexists. split; vm_compute; reflexivity.
+Qed.
+
+(* one position of a positional port map (processed when the whole file has been read): the same, on the port at that
+   position of the referenced definition, or on a new unnamed port of the width of the expression when the
+   definition has no port there (never-declared module) *)
+Theorem C06_full_positional_maps : forall cur ii rk fresh index e s s' inst,
+  Inv s -> cur <> rk -> (cur < length (st_defs s))%nat -> (rk < length (st_defs s))%nat ->
+  nth_error (ed_insts (get_def cur s)) ii = Some inst -> ei_ref inst = RName (ed_name (get_def rk s)) ->
+  dexpr_typed (crange (get_def cur s)) e ->
+  (fresh = false -> exists p, nth_error (ed_ports (get_def rk s)) index = Some p /\ b_lo (ep_b p) = 0) ->
+  pos_conn cur ii rk fresh index (Some e) s = Ok s' ->
+  let d := get_def cur s in let d' := get_def cur s' in let bits := dexpr_bits (crange d) e in
+  let rd := get_def rk s in
+  exists pk p' new,
+    cables_ext d (set_conn d' (ed_conn d)) /\ ed_conn d' = ed_conn d ++ new /\
+    nth_error (ed_ports (get_def rk s')) pk = Some p' /\
+    (if fresh then pk = length (ed_ports rd) /\ get_def rk s' = set_ports rd (ed_ports rd ++ [p']) /\
+                   ep_name p' = None /\ ep_dir p' = None /\ ep_b p' = new_bundle (Some (Z.of_nat (length bits) - 1)) (Some 0) 0
+     else pk = index /\ get_def rk s' = rd) /\
+    (forall k, k <> cur -> k <> rk -> get_def k s' = get_def k s) /\
+    names s' = names s /\
+    map (fun pw => (pin_endpoint s' d' (fst pw), wire_label d' (snd pw))) new =
+      map (fun kr => (Some (EInst (ei_name inst) (port_label pk p') (Z.of_nat (fst kr))), Some (snd kr))) (rev (number bits)).
+Proof. exact pos_conn_spec. Qed.
+Print Assumptions C06_full_positional_maps.
+
+Example C06_full_positional_maps_witness :
+  let e := DAtom (DPart (S "w") 5 4) in
+  dexpr_typed (crange (get_def 0 ex_state)) e /\
+  exists s', pos_conn 0 0 1 true 0 (Some e) ex_state = Ok s' /\
+    lconn s' (get_def 0 s') = lconn ex_state (get_def 0 ex_state) ++
+      [(Some (EInst (S "u1") (LPos 0) 1), Some (S "w", 5)); (Some (EInst (S "u1") (LPos 0) 0), Some (S "w", 4))].
+Proof.
+  split.
+  - split; [reflexivity|]. cbn. exists 2, 4%nat. split; [vm_compute; reflexivity|lia].
+  - eexists. split; vm_compute; reflexivity.
+Qed.
+
+(* an assign: one instance of SDN_VERILOG_ASSIGNMENT_w, w = the smaller width; pin k of o / i carries bit w-1-k ...
+   of the left / right side: the sides are paired bit by bit, MOST significant first (open finding
+   V06-assign-msb-first: the property wants pin k = bit k; equal for w = 1) *)
+Theorem C06_full_assigns : forall lhs rhs n d d', DInv d -> datom_typed (crange d) lhs -> datom_typed (crange d) rhs ->
+  assign_item lhs rhs n d = Ok d' ->
+  let lb := datom_bits (crange d) lhs in let rb := datom_bits (crange d) rhs in
+  let w := Nat.min (length lb) (length rb) in let ii := length (ed_insts d) in
+  exists d2 new,
+    cables_ext d d2 /\
+    d' = set_conn (set_insts d2 (ed_insts d ++ [{| ei_name := assign_name w n; ei_ref := RAssign w; ei_params := []; ei_attrs := [] |}]))
+                  (ed_conn d ++ new) /\
+    (forall p x, In (p, x) new -> exists pk k, p = POuter ii pk k) /\
+    (forall k, (k < w)%nat -> pin_label d' (POuter ii 1 k) = nth_error (rev lb) k /\ pin_label d' (POuter ii 0 k) = nth_error (rev rb) k).
+Proof. exact assign_item_spec. Qed.
+Print Assumptions C06_full_assigns.
+
+Example C06_full_assigns_witness :
+  let d := get_def 0 ex_state in
+  datom_typed (crange d) (DPart (S "y") 1 0) /\ datom_typed (crange d) (DPart (S "w") 3 2) /\
+  exists d', assign_item (DPart (S "y") 1 0) (DPart (S "w") 3 2) 0 d = Ok d' /\
+    def_assigns d' = [[(Some (S "y", 1), Some (S "w", 3)); (Some (S "y", 0), Some (S "w", 2))]].
+Proof.
+  split; [split; [reflexivity|]; cbn; exists 0, 2%nat; split; [vm_compute; reflexivity|lia]|].
+  split; [split; [reflexivity|]; cbn; exists 2, 4%nat; split; [vm_compute; reflexivity|lia]|].
+  eexists. split; vm_compute; reflexivity.
+Qed.
+
+(* ports: a module declared for the first time with a plain header and one declaration per port ends with exactly
+   the header ports, in header order, with the declared direction and width [w-1:0] (an undeclared one: no
+   direction, one bit), one cable per port of the same name and width, and port bit k joined to cable bit k *)
+Theorem C06_full_ports : forall mname names decls d1 d',
+  NoDup names -> (forall n, In n names -> has_glob n = false) ->
+  NoDup (map pd_name decls) -> (forall x, In x decls -> In (pd_name x) names /\ rg_ok (pd_rg x) (pd_w x)) ->
+  fold_res header_entry (map (HPort None None) names) (empty_def mname) = Ok d1 ->
+  fold_res (fun x => port_decl_one (pd_dir x) (pd_ty x) (pd_rg x) (pd_name x)) decls d1 = Ok d' ->
+  PortsSt names (fold_left (fun t x => tab_set t (pd_name x) (pd_dir x, pd_ty x, pd_w x)) decls (fun _ => None)) d'.
+Proof. exact ports_spec. Qed.
+Print Assumptions C06_full_ports.
+
+Example C06_full_ports_witness :
+  let names := [S "a"; S "b"; S "y"] in
+  let decls := [ {| pd_dir := DOut; pd_ty := Some TReg; pd_rg := Some (1, 0); pd_name := S "y"; pd_w := 2 |};
+                 {| pd_dir := DIn; pd_ty := None; pd_rg := Some (3, 0); pd_name := S "a"; pd_w := 4 |} ] in
+  NoDup names /\ NoDup (map pd_name decls) /\ (forall x, In x decls -> In (pd_name x) names /\ rg_ok (pd_rg x) (pd_w x)) /\
+  exists d1 d', fold_res header_entry (map (HPort None None) names) (empty_def (S "m")) = Ok d1 /\
+    fold_res (fun x => port_decl_one (pd_dir x) (pd_ty x) (pd_rg x) (pd_name x)) decls d1 = Ok d' /\
+    map (fun p => (ep_name p, ep_dir p, length (b_items (ep_b p)))) (ed_ports d') =
+      [(Some (S "a"), Some DIn, 4%nat); (Some (S "b"), None, 1%nat); (Some (S "y"), Some DOut, 2%nat)].
+Proof.
+  split; [repeat constructor; cbn; intuition discriminate|]. split; [repeat constructor; cbn; intuition discriminate|]. split.
+  - intros x [<-|[<-|[]]]; cbn; split; try (right; split; [reflexivity|lia]); intuition.
+  - eexists; eexists. split; [vm_compute; reflexivity|]. split; vm_compute; reflexivity.
+Qed.
+
+(* wire declarations: a net declared for the first time adds exactly one cable - name, range [h:l] (wire k of the
+   cable is bit l + k, any base, negative included), net type, attributes - and nothing else; in "wire [h:l] a, b" the
+   range and the attributes go to the FIRST name only (open finding V06-shared-range: the property wants both) *)
+Theorem C06_full_wires : forall ty rg attrs names d d', NoDup names ->
+  (forall n, In n names -> has_glob n = false /\ find_cable n d = None) -> rg_wf rg ->
+  wire_decl ty rg attrs names d = Ok d' ->
+  exists n rest, names = n :: rest /\
+    d' = set_cables d (ed_cables d ++ decl_cable ty rg attrs n :: map (decl_cable ty None []) rest).
+Proof. exact wire_decl_spec. Qed.
+Print Assumptions C06_full_wires.
+
+Example C06_full_wires_witness :
+  let d := get_def 0 ex_state in
+  (forall n, In n [S "t"; S "v"] -> has_glob n = false /\ find_cable n d = None) /\
+  exists d', wire_decl TReg (Some (-1, -3)) [(S "keep", None)] [S "t"; S "v"] d = Ok d' /\
+    map (fun c => (ec_name c, b_lo (ec_b c), length (b_items (ec_b c)), ec_type c)) (skipn 4 (ed_cables d')) =
+      [(S "t", -3, 3%nat, Some TReg); (S "v", 0, 1%nat, Some TReg)].
+Proof.
+  split; [intros n [<-|[<-|[]]]; split; vm_compute; reflexivity|]. eexists. split; vm_compute; reflexivity.
+Qed.
+
+(* the top clause on whole documents: when the first module that is not a `celldefine module is instantiated by no
+   module of the document (itself included), the reader elects it - whatever else the document contains. With the
+   root later in the file the election can fail: C06_top_clause_refuted, open finding V06-top-election. *)
+Theorem C06_full_top : forall cells m rest n,
+  Forall (fun c => vm_cell c = true) cells -> vm_cell m = false ->
+  (forall m', In m' (m :: rest) -> vm_cell m' = false -> body_no_inst (vm_name m) (vm_body m')) ->
+  elab (cells ++ m :: rest) = Ok n -> nv_top n = Some (vm_name m).
+Proof. exact elab_top_root_first. Qed.
+Print Assumptions C06_full_top.
+
+Example C06_full_top_witness :
+  exists m rest, ex_doc = [] ++ m :: rest /\ vm_cell m = false /\
+    (forall m', In m' (m :: rest) -> vm_cell m' = false -> body_no_inst (vm_name m) (vm_body m')) /\
+    exists n, elab ex_doc = Ok n.
+Proof.
+  eexists; eexists. split; [reflexivity|]. split; [reflexivity|]. split.
+  - intros m' [<-|[<-|[]]] _; cbn; repeat constructor; cbn; discriminate.
+  - destruct (elab ex_doc) as [n|e] eqn:E; [eexists; reflexivity|]. vm_compute in E. discriminate.
+Qed.
+
+(* The statement at full strength: denote = the meaning of a document (the Coq counterpart of
+   harness/verilog_gen.expected), well_typed = the property's input class. *)
+Definition C06_full (well_typed : vdoc -> Prop) (denote : vdoc -> nv -> Prop) : Prop :=
+  forall d n, well_typed d -> elab d = Ok n -> exists m, denote d m /\ same_netlist m n.
